@@ -21,6 +21,8 @@ CHECKS = {
          "deterministic simulation: exhaustive single-fault enumeration (crash points on both streams) with a reference stream parser as oracle"),
  "C11": ("exploration", "Hostile raw client requests, protocol-breaking scripted backends and transport faults (cuts, client gone, cancellation, handler panics, I/O after return) are drawn per run; no panic may escape ServeHTTP, the world must reach quiescence with all tasks finished, and the response-writer contract model must see one head and a consistent body.",
          "deterministic simulation with fault injection: seeded hostile workloads, quiescence-based termination and response-writer contract monitors"),
+ "C13": ("exploration", "Requests that need no conversion or match no endpoint are generated with arbitrary headers, query strings, declared lengths and protocol-invalid bodies under all segmentations and body faults; field-by-field and byte-by-byte identity is checked at the downstream handler and at the client, including flush pass-through.",
+         "deterministic simulation with fault injection: identity oracle at both seams under seeded I/O schedules and body faults"),
  "C16": ("exploration", "Bounded liveness by quiescence: a strict ping-pong between a simulated client that only sees flushed bytes and a scripted handler; any withheld byte is a deadlock the scheduler detects exactly (no timeout), over sampled adapter pairings, round counts, sizes and schedules.",
          "deterministic simulation: strict ping-pong on a flush-visibility transport with deadlock (quiescence) detection"),
  "C18": ("exploration", "Twelve rejection classes and every exit path of ServeHTTP (reached by fault schedules) are checked on the event history: dispatch count, handler context cancelled at the return event, no body/writer call after it.",
